@@ -390,4 +390,123 @@ theorem bodyF_refines {st : Store} (strict : Bool) (f : FName) {recv : HVal} {ar
     subst d1 d3
     exact Refines.ret ⟨defaultH_abs e2, defaultH_wf e2 d2, fun _ _ => rfl, Nat.le_refl _⟩
 
+
+/-! ### one application `x | f: args`, and a pipeline -/
+
+/-- `stageF` on values -/
+def stageP (strict : Bool) (f : FName) (g : GoVal) (args : List GoVal) : Res Cause GoVal :=
+  if (g :: args).length > f.arity then .err (.filterErr f.name .parity) else
+  (bodyP strict f (viaValue g) (args.map viaValue)).bind fun w => .ok (viaValue (bytesToString w))
+
+/-- `runChainF` on values -/
+def chainP (strict : Bool) : GoVal → List (FName × List GoVal) → Res Cause GoVal
+  | g, [] => .ok g
+  | g, (f, args) :: rest => (stageP strict f g args).bind fun w => chainP strict w rest
+
+theorem via_abs (st : Store) (h : HVal) : h.via.abs st = viaValue (h.abs st) := by
+  cases h <;> rfl
+
+theorem via_wf {st : Store} {h : HVal} (hw : HVal.wf st h) : HVal.wf st h.via := by
+  cases h with
+  | sl t s => exact hw
+  | val v => trivial
+
+theorem post_abs (st : Store) (h : HVal) : h.post.abs st = viaValue (bytesToString (h.abs st)) := by
+  cases h <;> rfl
+
+theorem post_wf {st : Store} {h : HVal} (hw : HVal.wf st h) : HVal.wf st h.post := by
+  cases h with
+  | sl t s => exact hw
+  | val v => trivial
+
+theorem stageF_refines {st : Store} (strict : Bool) (f : FName) {recv : HVal} {args : List HVal}
+    (hr : HVal.wf st recv) (ha : ∀ h ∈ args, HVal.wf st h) :
+    Refines (run (stageF strict f recv args) st) (stageP strict f (recv.abs st) (args.map (·.abs st))) (StageResult st) := by
+  unfold stageF stageP
+  simp only [List.length_cons, List.length_map]
+  by_cases hlen : args.length + 1 > f.arity
+  · rw [if_pos hlen, if_pos hlen]; rfl
+  · rw [if_neg hlen, if_neg hlen]
+    have hb := bodyF_refines (st := st) strict f (recv := recv.via) (args := args.map HVal.via) (via_wf hr)
+      (by intro h hh; obtain ⟨h0, hm, rfl⟩ := List.mem_map.mp hh; exact via_wf (ha h0 hm))
+    have hargs : (args.map HVal.via).map (·.abs st) = (args.map (·.abs st)).map viaValue := by
+      simp only [List.map_map]
+      apply List.map_congr_left
+      intro h _
+      exact via_abs st h
+    rw [via_abs, hargs] at hb
+    refine Refines.bind hb ?_
+    intro v st1 w ⟨q1, q2, q3, q4⟩
+    subst q1
+    exact Refines.ret ⟨post_abs st1 v, post_wf q2, q3, q4⟩
+
+def absChain (st : Store) (chain : List (FName × List HVal)) : List (FName × List GoVal) :=
+  chain.map fun p => (p.1, p.2.map (·.abs st))
+
+theorem absChain_kept {st st' : Store} (hk : ∀ b, b < st.length → st'[b]? = st[b]?) :
+    ∀ (chain : List (FName × List HVal)), (∀ p ∈ chain, ∀ h ∈ p.2, HVal.wf st h) →
+      absChain st' chain = absChain st chain ∧ (∀ p ∈ chain, ∀ h ∈ p.2, HVal.wf st' h)
+  | [], _ => ⟨rfl, fun _ hp => by cases hp⟩
+  | p :: rest, hw => by
+    obtain ⟨ih1, ih2⟩ := absChain_kept hk rest (fun q hq => hw q (List.mem_cons_of_mem _ hq))
+    have hp : p.2.map (·.abs st') = p.2.map (·.abs st) := by
+      apply List.map_congr_left
+      intro h hh
+      exact (HVal.kept hk (hw p List.mem_cons_self h hh)).2
+    refine ⟨?_, ?_⟩
+    · simp only [absChain, List.map_cons] at ih1 ⊢
+      rw [hp, ih1]
+    · intro q hq h hh
+      rcases List.mem_cons.mp hq with rfl | hq'
+      · exact (HVal.kept hk (hw q List.mem_cons_self h hh)).1
+      · exact ih2 q hq' h hh
+
+theorem runChainF_refines (strict : Bool) : ∀ (chain : List (FName × List HVal)) (st : Store) (v : HVal),
+    HVal.wf st v → (∀ p ∈ chain, ∀ h ∈ p.2, HVal.wf st h) →
+    Refines (run (runChainF strict v chain) st) (chainP strict (v.abs st) (absChain st chain)) (StageResult st)
+  | [], st, v, hv, _ => Refines.ret ⟨rfl, hv, fun _ _ => rfl, Nat.le_refl _⟩
+  | (f, args) :: rest, st, v, hv, hw => by
+    simp only [runChainF, absChain, List.map_cons, chainP]
+    refine Refines.bind (stageF_refines strict f hv (hw (f, args) List.mem_cons_self)) ?_
+    intro r st1 w ⟨q1, q2, q3, q4⟩
+    subst q1
+    obtain ⟨hc1, hc2⟩ := absChain_kept q3 rest (fun q hq => hw q (List.mem_cons_of_mem _ hq))
+    have ih := runChainF_refines strict rest st1 r q2 hc2
+    rw [hc1] at ih
+    refine ih.post ?_
+    intro v' st2 w' ⟨p1, p2, p3, p4⟩
+    exact ⟨p1, p2, fun b hb => by rw [p3 b (Nat.lt_of_lt_of_le hb q4), q3 b hb], Nat.le_trans q4 p4⟩
+
+/-! ### which results share memory with their input -/
+
+/-- the filters that return an array -/
+def FName.returnsArray : FName → Bool
+  | .compact | .concat | .map | .reverse | .sort | .sortNatural | .uniq => true
+  | _ => false
+
+/-- a value that is the nil slice or a slice in an array at or above `N` -/
+def FreshVal (N : Nat) (v : HVal) : Prop := ∃ r, v = .sl .any r ∧ Fresh N r
+
+theorem Above.slResult {N : Nat} {p : Prog Slice} (h : Above N p (Fresh N)) :
+    Above N (p.bind fun r => .ret (.sl .any r)) (FreshVal N) :=
+  Above.bind h fun r hr => Above.ret ⟨r, rfl, hr⟩
+
+theorem bodyF_fresh (N : Nat) (strict : Bool) (f : FName) (hf : f.returnsArray = true) (recv : HVal) (args : List HVal) :
+    Above N (bodyF strict f recv args) (FreshVal N) := by
+  cases f <;> first | cases hf | unfold bodyF
+  · exact Above.bind (convertAnys_above N recv) fun a _ => (compactH_above N a).slResult
+  · exact Above.bind (convertAnys_above N recv) fun a _ => Above.bind (convertAnys_above N _) fun b _ => (concatH_above N a b).slResult
+  · exact Above.bind (convertAnys_above N recv) fun a _ => Above.bind (strArg_above N _) fun k _ => (mapH_above N a k).slResult
+  · exact Above.bind (convertAnys_above N recv) fun a _ => (reverseH_above N a).slResult
+  · exact Above.bind (convertAnys_above N recv) fun a _ => Above.bind (anyArg_above N _) fun key _ => (sortH_above N strict false a key).slResult
+  · exact Above.bind (convertAnys_above N recv) fun a _ => Above.bind (anyArg_above N _) fun key _ => (sortH_above N strict true a key).slResult
+  · exact Above.bind (convertAnys_above N recv) fun a _ => (uniqH_above N a).slResult
+
+theorem stageF_fresh (N : Nat) (strict : Bool) (f : FName) (hf : f.returnsArray = true) (recv : HVal) (args : List HVal) :
+    Above N (stageF strict f recv args) (FreshVal N) := by
+  unfold stageF
+  split
+  · exact Above.halt
+  · exact Above.bind (bodyF_fresh N strict f hf _ _) fun r hr => Above.ret (by obtain ⟨s, rfl, hs⟩ := hr; exact ⟨s, rfl, hs⟩)
+
 end Heap
